@@ -83,7 +83,9 @@ Record obs_step := { os_ev : ev;            (* the event, error class as the imp
                      os_ign_spec : bool;    (* error class by the property text (generator's label) *)
                      os_hfull : N;          (* hash of the implementation's full observation *)
                      os_hproj : N;          (* hash of the implementation's projected observation *)
-                     os_hnorm : N }.        (* same, a slot reading 0 while its set has a member reported as 1 *)
+                     os_hnorm : N;          (* same, a slot reading 0 while its set has a member reported as 1 *)
+                     os_post : list bool }. (* reload steps: the implementation's alive flags afterwards, node-major x 6 types *)
+Definition post_of (l : list bool) : N -> dom -> bool := fun n d => nth (N.to_nat (n * 6 + dom_code d)) l false.
 Record obs_case := { oc_cfg : config; oc_nd : nat; oc_na : nat;
                      oc_init_hfull : N; oc_init_hproj : N;
                      oc_keys : list (N * dom * N);   (* outbound id, type, slot index the implementation writes *)
@@ -110,15 +112,20 @@ Fixpoint check_steps (cfg : config) (nd na : nat) (steps : list obs_step) (m : m
   | [] => []
   | st :: rest =>
       let m' := compact_m nd (length (c_groups cfg)) na (m_step cfg m (os_ev st)) in
-      let '(s0', l) := s_step cfg s (spec_ev st) in
+      let rl := is_reload (os_ev st) in
+      let post_i := post_of (os_post st) in
+      let post_m := fun n d => d_alive (m_d m' n) d in
+      (* a reload does not prescribe which node the floor revives: the spec adopts the observed flags and judges them *)
+      let '(s0', l) := if rl then (s_adopt cfg s post_i, []) else s_step cfg s (spec_ev st) in
       let s' := compact_s nd na s0' in
-      let wl := negb (is_reload (os_ev st)) in
+      let s_m := if rl then compact_s nd na (s_adopt cfg s post_m) else s' in
+      let wl := negb rl in
       let pm := obs_proj_model cfg nd wl m' in
       let ps := obs_proj_spec cfg nd wl s' l in
       (if hash_list (obs_full cfg nd na m') =? os_hfull st then [] else [(i, 1)])
-      ++ (if hash_list ps =? os_hproj st then [] else [(i, 2)])
-      ++ (if hash_list ps =? os_hnorm st then [] else [(i, 6)])
-      ++ (if list_eqb pm ps then [] else [(i, 3)])
+      ++ (if (hash_list ps =? os_hproj st) && (negb rl || reload_ok cfg nd s post_i) then [] else [(i, 2)])
+      ++ (if (hash_list ps =? os_hnorm st) && (negb rl || reload_ok cfg nd s post_i) then [] else [(i, 6)])
+      ++ (if list_eqb pm (obs_proj_spec cfg nd wl s_m l) && (negb rl || reload_ok cfg nd s post_m) then [] else [(i, 3)])
       ++ check_steps cfg nd na rest m' s' (i + 1)
   end.
 
@@ -138,7 +145,7 @@ Fixpoint trace_steps (cfg : config) (nd na : nat) (steps : list obs_step) (m : m
   | [] => []
   | st :: rest =>
       let m' := compact_m nd (length (c_groups cfg)) na (m_step cfg m (os_ev st)) in
-      let '(s0', l) := s_step cfg s (spec_ev st) in
+      let '(s0', l) := if is_reload (os_ev st) then (s_adopt cfg s (post_of (os_post st)), []) else s_step cfg s (spec_ev st) in
       let s' := compact_s nd na s0' in
       let wl := negb (is_reload (os_ev st)) in
       (obs_full cfg nd na m', obs_proj_model cfg nd wl m', obs_proj_spec cfg nd wl s' l) :: trace_steps cfg nd na rest m' s'
